@@ -836,7 +836,10 @@ def render(g, tree_desc="current tree"):
     da = g.deptharg
     di = {n: i for i, n in enumerate(da["fns"])}
     L.append("/-- marshal / unmarshal pass their depth as an argument (`flags`, charged by `flags + 1`): functions, and the\n"
-             "    call edges that do NOT charge.  Every cycle must charge, i.e. this graph must be acyclic (rank certificate). -/")
+             "    call edges that do NOT charge.  The depth is followed through `JanetMarshalContext.flags` on both sides\n"
+             "    ((un)marshal_one_abstract initialiser -> hook -> janet_(un)marshal_janet reads `ctx->flags`); a call or\n"
+             "    initialiser whose depth operand is not `<the caller's own depth> (+ k)` restarts the count and appears as a\n"
+             "    self-loop of the caller.  Every cycle must charge, i.e. this graph must be acyclic (rank certificate). -/")
     L.append("abbrev depthArgNames : List String := [%s]" % ", ".join('"%s"' % n for n in da["fns"]))
     L.append("abbrev depthArgCg : JanetModel.Depth.CG := { n := %d, edges := [%s], guard := [] }"
              % (len(da["fns"]), ", ".join("(%d, %d)" % (di[a], di[b]) for a, b in da["zero"])))
@@ -1113,14 +1116,53 @@ def _split_c_args(t):
     return out
 
 
+_DEPTH_WRITE = r"(?:(?<![\w.>])%s\s*(?:=(?!=)|\+=|-=|\|=|&=|\^=|<<=|>>=|\+\+|--)|(?:\+\+|--)\s*%s\b)"
+
+
+def _own_depth(fn):
+    """the expression that holds the depth inside `fn`: the `flags` parameter of the (un)marshal_one* functions, the
+    `flags` field of the context for the two functions an abstract type's hook calls back"""
+    return "ctx->flags" if fn.startswith("janet_") else "flags"
+
+
+def _depth_step(arg, own):
+    """`own` or `own + k` (k >= 0, parentheses allowed) -> k; anything else (another variable, a field of the state, a
+    constant, a mask, `own - 1`) -> None: the callee's depth is then not derived from the caller's, the count restarts"""
+    t = re.sub(r"\s+", "", arg)
+    while t.startswith("(") and t.endswith(")") and _paren(t, 0)[1] == len(t):
+        t = t[1:-1]
+    m = re.match(r"^\(?%s\)?(?:\+(\d+))?$" % re.escape(own), t)
+    if not m:
+        return None
+    return int(m.group(1) or 0)
+
+
 def depth_arg_graph(bodies):
+    """graph over the (un)marshal functions whose edges are the calls that hand the depth on WITHOUT adding to it.  The
+    depth travels `flags` -> (`JanetMarshalContext.flags` -> abstract type hook -> janet_(un)marshal_janet: `ctx->flags`)
+    -> `flags`.  A call / context initialiser whose depth operand is not `<caller's own depth> (+ k)` restarts the
+    count: it is recorded in `unknown` and emitted as a non-charging self-loop of the caller, so that the acyclicity
+    obligation fails naming that function."""
     fns = sorted(n for n, b in bodies.items() if b and _MARSH_FN.match(n))
     if "marshal_one" not in fns or "unmarshal_one" not in fns:
         raise ExtractError("depth-argument check: marshal_one / unmarshal_one not found")
+    for need in ("janet_marshal_janet", "janet_unmarshal_janet", "marshal_one_abstract", "unmarshal_one_abstract"):
+        if need not in fns:
+            raise ExtractError("depth-argument check: %s not found" % need)
     edges = {}      # (a, b) -> charged? (False wins: one non-charging call site makes the edge non-charging)
     sites = []
+    unknown = []    # (caller, callee, operand text, why)
+    nctx = {"marshal_one_abstract": 0, "unmarshal_one_abstract": 0, "janet_marshal_janet": 0, "janet_unmarshal_janet": 0}
     for a in fns:
         body = bodies[a]
+        own = _own_depth(a)
+        if a.startswith("janet_"):
+            if not re.search(r"\bJanetMarshalContext\b|\bctx\s*->\s*(?:m_state|u_state)\b", body) or not re.search(r"\bctx\s*->\s*flags\b", body):
+                raise ExtractError("depth-argument check: %s does not read ctx->flags" % a)
+        own_rx = r"ctx\s*->\s*flags" if a.startswith("janet_") else "flags"
+        w = re.search(_DEPTH_WRITE % (own_rx, own_rx), body)
+        if w:
+            unknown.append((a, a, body[w.start():w.end() + 24].split("\n")[0].strip(), "the depth variable %s is written inside the function" % own))
         for m in re.finditer(r"\b((?:un)?marshal_one(?:_\w+)?)\s*\(", body):
             b = m.group(1)
             if b not in fns:
@@ -1131,17 +1173,56 @@ def depth_arg_graph(bodies):
                 continue
             if b == "marshal_one" and _LEAF_VALUE.match(args[1]):
                 continue                      # a string / number is written without recursion
-            charged = bool(re.search(r"\+\s*1\b", args[-1]))
-            sites.append((a, b, args[-1].strip(), charged))
-            edges[(a, b)] = edges.get((a, b), True) and charged
-        for m in re.finditer(r"JanetMarshalContext\s+\w+\s*=\s*\{([^}]*)\}", body):
-            parts = _split_c_args(m.group(1))
-            if len(parts) < 3:
+            k = _depth_step(args[-1], own)
+            if a in nctx and a.startswith("janet_"):
+                nctx[a] += 1
+            if k is None:
+                unknown.append((a, b, args[-1].strip(), "depth operand is not `%s (+ k)`" % own))
+                sites.append((a, b, args[-1].strip(), False))
+                edges[(a, b)] = False
                 continue
+            sites.append((a, b, args[-1].strip(), k > 0))
+            edges[(a, b)] = edges.get((a, b), True) and k > 0
+        for m in re.finditer(r"\bJanetMarshalContext\s+(\w+)\s*(=\s*\{([^}]*)\})?\s*;", body):
             b = "janet_unmarshal_janet" if a.startswith("un") else "janet_marshal_janet"
-            charged = bool(re.search(r"\+\s*1\b", parts[2]))
-            sites.append((a, b, parts[2].strip(), charged))
-            edges[(a, b)] = edges.get((a, b), True) and charged
+            if a not in nctx or a.startswith("janet_"):
+                unknown.append((a, b, m.group(0).strip(), "a marshal context is built outside (un)marshal_one_abstract"))
+                continue
+            nctx[a] += 1
+            parts = _split_c_args(m.group(3) or "")
+            # positional initialiser {m_state, u_state, flags, data, at}; designated or partial ones are not understood
+            if len(parts) != 5 or any(re.match(r"^\s*\.", q) for q in parts):
+                unknown.append((a, b, m.group(0).strip(), "context initialiser is not the positional 5-field form"))
+                edges[(a, b)] = False
+                continue
+            k = _depth_step(parts[2], own)
+            var = m.group(1)
+            wr = re.search(r"\b%s\s*\.\s*flags\s*(?:=(?!=)|\+=|-=|\|=|&=|\^=|\+\+|--)" % re.escape(var), body)
+            if k is None or wr:
+                unknown.append((a, b, parts[2].strip() if k is None else body[wr.start():wr.end() + 24].split("\n")[0].strip(),
+                                "context depth field `flags` is not initialised from `%s (+ k)`" % own if k is None
+                                else "context depth field is overwritten after initialisation"))
+                sites.append((a, b, parts[2].strip(), False))
+                edges[(a, b)] = False
+                continue
+            sites.append((a, b, parts[2].strip(), k > 0))
+            edges[(a, b)] = edges.get((a, b), True) and k > 0
+    for a, n in sorted(nctx.items()):
+        if n == 0:
+            raise ExtractError("depth-argument check: %s hands no depth on (%s) - shape changed" % (
+                a, "no JanetMarshalContext initialiser" if not a.startswith("janet_") else "no (un)marshal_one call"))
+    # the hooks of abstract types receive the context by pointer: none of them may write its depth field
+    for nm, body in sorted(bodies.items()):
+        if not body or nm in fns or "flags" not in body:
+            continue
+        if not re.search(r"\bjanet_(?:un)?marshal_\w+\s*\(\s*ctx\b", body):
+            continue
+        w = re.search(r"\bctx\s*->\s*flags\s*(?:=(?!=)|\+=|-=|\|=|&=|\^=|\+\+|--)|(?:\+\+|--)\s*ctx\s*->\s*flags\b", body)
+        if w:
+            for b in ("janet_marshal_janet", "janet_unmarshal_janet"):
+                unknown.append((b, b, body[w.start():w.end() + 24].split("\n")[0].strip(), "marshal hook %s writes the context depth field" % nm))
+    for a, b, _, _ in unknown:
+        edges[(a, a)] = False                  # self-loop without charge: no rank certificate exists
     zero = sorted(e for e, ch in edges.items() if not ch)
     # rank by longest path over the zero edges
     succ = {n: [] for n in fns}
@@ -1164,4 +1245,5 @@ def depth_arg_graph(bodies):
     for n in fns:
         visit(n)
     cyc = [c for c in sccs(fns, succ) if len(c) > 1 or c[0] in succ[c[0]]]
-    return dict(fns=fns, zero=zero, rank=rank, sites=sites, cycles=[sorted(c) for c in cyc], charged=sorted(e for e, ch in edges.items() if ch))
+    return dict(fns=fns, zero=zero, rank=rank, sites=sites, cycles=[sorted(c) for c in cyc], charged=sorted(e for e, ch in edges.items() if ch),
+                unknown=unknown)
